@@ -5,7 +5,12 @@ import IpcModel.Gen
 
 Model `Timed`: `UnixCmsg::recv`'s three modes over a kernel socket with an `O_NONBLOCK` flag on the open file
 description; `poll` may report a time-out only if nothing was ready for the whole wait (`pollConsistent`).
-The order "set the flag — recvmsg — clear the flag" and "poll time-out ⇒ EAGAIN" are regenerated shape facts.
+The order "set the flag — recvmsg — clear the flag", "poll time-out ⇒ EAGAIN", the poll event mask and the unit in
+which the duration is handed to `poll` are regenerated from the source on every run (`Gen.shape_*`, `Gen.pollUnit*`).
+The system calls `Timed.call` lists are compared with the interposed trace of the real crate (scenario `timed`).
+
+Not reached by a theorem: that the kernel's `poll` really waits the time it was given (lower bound checked on the real
+system by the oracle) and the wake-up when a message or closure arrives during the wait (exercised with threads).
 -/
 namespace C10
 open Timed
@@ -15,16 +20,17 @@ theorem C10_flag (k : K) (m : Mode) (b : Bool) (h : k.nonblock = false) : (recvF
 
 theorem C10_try (k : K) (b : Bool) :
     (recvFirst k .nonblocking b).1 ≠ .blocks ∧
-    (∀ t q, k.queue = t :: q → (recvFirst k .nonblocking b).1 = .msg t) ∧
+    (∀ t q, k.queue = (t, true) :: q → (recvFirst k .nonblocking b).1 = .msg t) ∧
     (k.queue = [] → k.peerAlive = true → (recvFirst k .nonblocking b).1 = .empty) ∧
-    (k.queue = [] → k.peerAlive = false → (recvFirst k .nonblocking b).1 = .disconnected) :=
+    (k.queue = [] → k.peerAlive = false → (recvFirst k .nonblocking b).1 = .disconnected) ∧
+    (∀ t, (recvFirst k .nonblocking b).1 = .waitsSender t → ∃ q, k.queue = (t, false) :: q) :=
   try_outcome k b
 
-theorem C10_timeout (k : K) (ms : Nat) (b : Bool) (hk : k.nonblock = false) (hc : pollConsistent k b) :
-    ((recvFirst k (.timeout ms) b).1 = .empty → b = true) ∧
-    (∀ t q, k.queue = t :: q → (recvFirst k (.timeout ms) b).1 = .msg t) ∧
-    (k.queue = [] → k.peerAlive = false → (recvFirst k (.timeout ms) b).1 = .disconnected) :=
-  timeout_outcome k ms b hk hc
+theorem C10_timeout (k : K) (us : Nat) (b : Bool) (hk : k.nonblock = false) (hc : pollConsistent k b) :
+    ((recvFirst k (.timeout us) b).1 = .empty → b = true) ∧
+    (∀ t q, k.queue = (t, true) :: q → (recvFirst k (.timeout us) b).1 = .msg t) ∧
+    (k.queue = [] → k.peerAlive = false → (recvFirst k (.timeout us) b).1 = .disconnected) :=
+  timeout_outcome k us b hk hc
 
 /-- **C10_no_poison** — after any sequence of the three calls with any outcomes, a blocking receive on an idle connected channel blocks
 (waits for a message) instead of failing. -/
@@ -33,8 +39,29 @@ theorem C10_no_poison (k : K) (calls : List (Mode × Bool)) (h : k.nonblock = fa
     k'.queue = [] → k'.peerAlive = true → (recvFirst k' .blocking false).1 = .blocks :=
   later_blocking_blocks k calls h
 
+/-- **C10_no_miss** — no call of any mode loses, duplicates or reorders a queued message. -/
+theorem C10_no_miss (k : K) (m : Mode) (b : Bool) :
+    tagOf (recvFirst k m b).1 ++ (recvFirst k m b).2.queue.map Prod.fst = k.queue.map Prod.fst :=
+  queue_conserved k m b
+
+/-- **C10_wait** — the wait handed to the kernel by `try_recv_timeout(d)` is `d` rounded down to whole milliseconds
+(or unbounded when it does not fit a C int), for the conversion found in the source on this run. -/
+theorem C10_wait (us : Nat) :
+    pollArg us = -1 ∨ (0 ≤ pollArg us ∧ pollArg us * 1000 ≤ (us : Int) ∧ (us : Int) < (pollArg us + 1) * 1000) :=
+  pollArg_granularity us (by decide) (by decide)
+
 /-- shape facts regenerated from `UnixCmsg::recv` on every run -/
 theorem C10_shape : Gen.shape_nonblockSetBefore = true ∧ Gen.shape_nonblockClearedAfter = true ∧
-    Gen.shape_pollTimeoutIsEagain = true := by decide
+    Gen.shape_pollTimeoutIsEagain = true ∧ Gen.shape_pollEvents = true := by decide
+
+/-- non-vacuity: a concrete idle connected channel in blocking mode; `try_recv` says empty and leaves the flag clear,
+a 1.5 ms timed receive polls for 1 ms -/
+example : (recvFirst ⟨[], true, false⟩ .nonblocking false) = (.empty, ⟨[], true, false⟩) := by decide
+example : pollArg 1500 = 1 := by decide
+example : (call ⟨[(7, true)], true, false⟩ (.timeout 1500) false).1 = [.poll 1, .recvmsg] := by decide
+
+/-- sensitivity: the variant that forgets to clear the flag poisons a later blocking receive (it would answer `empty`, an
+error, instead of blocking) -/
+example : (Timed.recvmsg ⟨[], true, true⟩).1 = .empty := by decide
 
 end C10
